@@ -98,5 +98,160 @@ theorem evalCount_eq (p : Prog Unit) : p.evalCount = p.data.length := by
   | extend p bs ih => simp [Prog.evalCount, Prog.data, ih]
   | merge l r ihl ihr => simp [Prog.evalCount, Prog.data, ihl, ihr]
 
+/-! ### Merging with the empty register -/
+
+section neutral
+variable {fl : ℝ → ℝ}
+
+theorem merge_empty_eq (k : Kahan (RR fl)) :
+    k.merge Kahan.empty = (k.add NumOps.zero).add NumOps.zero := rfl
+
+theorem arith_merge_empty_count {F : Type} [Scalar F] (a : Arith F) :
+    (a.merge Arith.empty).count = a.count ∧ (Arith.empty.merge a).count = a.count := by
+  simp [Arith.merge, Arith.empty]
+
+/-- exact arithmetic: the empty register is left-neutral for every register, and right-neutral
+    up to the sign of the compensation -/
+theorem merge_empty_exact (k : Kahan Rex) :
+    ((Kahan.empty : Kahan Rex).merge k).value.val = k.value.val ∧
+    (k.merge Kahan.empty).value.val = k.sum.val - k.comp.val := by
+  obtain ⟨h1, h2⟩ := merge_exact (Kahan.empty : Kahan Rex) k
+  obtain ⟨h3, h4⟩ := merge_exact k (Kahan.empty : Kahan Rex)
+  constructor
+  · rw [value_val, value_val, h1, h2]; simp
+  · rw [value_val, h3, h4]; simp
+
+/-- one model step fed with `0` from an *arbitrary* register (no invariant assumed) -/
+theorem add_zero_crude {u : ℝ} (hu : 0 ≤ u) (hu' : u ≤ 1 / 64)
+    (hfl : ∀ x, |fl x - x| ≤ u * |x|) (k : Kahan (RR fl)) :
+    |(k.add NumOps.zero).sum.val - k.sum.val|
+        ≤ |k.comp.val| + u * |k.sum.val| + 17 / 8 * (u * |k.comp.val|) ∧
+    |(k.add NumOps.zero).comp.val| ≤ 17 / 16 * (u * |k.sum.val|) + 17 / 8 * (u * |k.comp.val|) ∧
+    |((k.add NumOps.zero).sum.val - (k.add NumOps.zero).comp.val) - (k.sum.val - k.comp.val)|
+        ≤ 1 / 16 * (u * |k.sum.val|) + 17 / 8 * (u * |k.comp.val|) := by
+  have hdrift := step_drift hfl k (NumOps.zero : RR fl)
+  rw [add_sum_val, add_comp_val] at hdrift ⊢
+  simp only [RR.zero_val, add_zero] at hdrift ⊢
+  set s := k.sum.val
+  set c := k.comp.val
+  set a := 0 - c with ha
+  set y := fl a with hy
+  set t := fl (s + y) with ht
+  set d := fl (t - s) with hd
+  set c' := fl (d - y) with hc'
+  have haa : |a| = |c| := by rw [ha, zero_sub, abs_neg]
+  rw [haa] at hdrift
+  have hS0 := abs_nonneg s
+  have hC0 := abs_nonneg c
+  have hP0 : 0 ≤ u * |s| := mul_nonneg hu hS0
+  have hQ0 : 0 ≤ u * |c| := mul_nonneg hu hC0
+  have fP : u * (u * |s|) ≤ (u * |s|) / 64 := by
+    have := mul_le_mul_of_nonneg_right hu' hP0; linarith
+  have fQ : u * (u * |c|) ≤ (u * |c|) / 64 := by
+    have := mul_le_mul_of_nonneg_right hu' hQ0; linarith
+  have gP : 0 ≤ u * (u * |s|) := mul_nonneg hu hP0
+  have gQ : 0 ≤ u * (u * |c|) := mul_nonneg hu hQ0
+  have hyb : |y| ≤ (1 + u) * |a| := abs_fl_le hfl a
+  rw [haa] at hyb
+  have hr : |t - (s + y)| ≤ u * |s + y| := hfl (s + y)
+  have hsy : |s + y| ≤ |s| + |y| := abs_add_le s y
+  have hts : |t - s| ≤ |y| + |t - (s + y)| := by
+    have e : t - s = y + (t - (s + y)) := by ring
+    rw [e]; exact abs_add_le _ _
+  have hdts : |d - (t - s)| ≤ u * |t - s| := hfl (t - s)
+  have hdy : |d - y| ≤ |t - (s + y)| + |d - (t - s)| := by
+    have e : d - y = (t - (s + y)) + (d - (t - s)) := by ring
+    rw [e]; exact abs_add_le _ _
+  have hc'b : |c'| ≤ (1 + u) * |d - y| := abs_fl_le hfl (d - y)
+  have hY1 : |y| ≤ |c| + u * |c| := by linarith
+  have hR1 : |t - (s + y)| ≤ u * |s| + (65 / 64) * (u * |c|) := by
+    have h1 : u * |s + y| ≤ u * (|s| + (|c| + u * |c|)) :=
+      mul_le_mul_of_nonneg_left (by linarith) hu
+    linarith
+  have hTS1 : |t - s| ≤ |c| + u * |s| + (129 / 64) * (u * |c|) := by linarith
+  have hUTS : u * |t - s| ≤ u * (|c| + u * |s| + (129 / 64) * (u * |c|)) :=
+    mul_le_mul_of_nonneg_left hTS1 hu
+  have hDY1 : |d - y| ≤ (65 / 64) * (u * |s|) + (2 + 193 / 4096) * (u * |c|) := by linarith
+  have hUDY : u * |d - y| ≤ u * ((65 / 64) * (u * |s|) + (2 + 193 / 4096) * (u * |c|)) :=
+    mul_le_mul_of_nonneg_left hDY1 hu
+  refine ⟨by linarith, ?_, ?_⟩
+  · have h1 : (1 + u) * |d - y| = |d - y| + u * |d - y| := by ring
+    linarith
+  · linarith
+
+/-- **right-merging the empty register, arbitrary rounding**: `value` moves by at most
+    `2|c| + 5u|s| + 7u|c|` -/
+theorem merge_empty_value {u : ℝ} (hu : 0 ≤ u) (hu' : u ≤ 1 / 64)
+    (hfl : ∀ x, |fl x - x| ≤ u * |x|) (k : Kahan (RR fl)) :
+    |(k.merge Kahan.empty).value.val - k.value.val|
+      ≤ 2 * |k.comp.val| + 5 * (u * |k.sum.val|) + 7 * (u * |k.comp.val|) := by
+  rw [merge_empty_eq]
+  obtain ⟨A1, B1, C1⟩ := add_zero_crude hu hu' hfl k
+  obtain ⟨A2, B2, C2⟩ := add_zero_crude hu hu' hfl (k.add NumOps.zero)
+  rw [value_val, value_val]
+  set k1 := k.add NumOps.zero
+  set k2 := k1.add NumOps.zero
+  set s := k.sum.val
+  set c := k.comp.val
+  set t1 := k1.sum.val
+  set c1 := k1.comp.val
+  set t2 := k2.sum.val
+  set c2 := k2.comp.val
+  have hS0 := abs_nonneg s
+  have hC0 := abs_nonneg c
+  have hP0 : 0 ≤ u * |s| := mul_nonneg hu hS0
+  have hQ0 : 0 ≤ u * |c| := mul_nonneg hu hC0
+  have fP : u * (u * |s|) ≤ (u * |s|) / 64 := by
+    have := mul_le_mul_of_nonneg_right hu' hP0; linarith
+  have fQ : u * (u * |c|) ≤ (u * |c|) / 64 := by
+    have := mul_le_mul_of_nonneg_right hu' hQ0; linarith
+  have gP : 0 ≤ u * (u * |s|) := mul_nonneg hu hP0
+  have gQ : 0 ≤ u * (u * |c|) := mul_nonneg hu hQ0
+  -- magnitudes after the first step
+  have ht1 : |t1| ≤ |s| + |t1 - s| := by
+    have e : t1 = s + (t1 - s) := by ring
+    calc |t1| = |s + (t1 - s)| := by rw [← e]
+      _ ≤ |s| + |t1 - s| := abs_add_le _ _
+  have hP2 : u * |t1| ≤ u * (|s| + (|c| + u * |s| + 17 / 8 * (u * |c|))) :=
+    mul_le_mul_of_nonneg_left (by linarith) hu
+  have hQ2 : u * |c1| ≤ u * (17 / 16 * (u * |s|) + 17 / 8 * (u * |c|)) :=
+    mul_le_mul_of_nonneg_left B1 hu
+  -- magnitudes after the second step
+  have ht2 : |t2 + c2| ≤ |t1| + |t2 - t1| + |c2| := by
+    have e : t2 + c2 = t1 + (t2 - t1) + c2 := by ring
+    calc |t2 + c2| = |t1 + (t2 - t1) + c2| := by rw [← e]
+      _ ≤ |t1 + (t2 - t1)| + |c2| := abs_add_le _ _
+      _ ≤ |t1| + |t2 - t1| + |c2| := by have := abs_add_le t1 (t2 - t1); linarith
+  have hT2 : |t2 + c2| ≤ |s| + |c| + 5 * (u * |s|) + 7 * (u * |c|) := by linarith
+  have hUT2 : u * |t2 + c2| ≤ u * (|s| + |c| + 5 * (u * |s|) + 7 * (u * |c|)) :=
+    mul_le_mul_of_nonneg_left hT2 hu
+  have hv' : |fl (t2 + c2) - (t2 + c2)| ≤ u * |t2 + c2| := hfl _
+  have hv : |fl (s + c) - (s + c)| ≤ u * |s + c| := hfl _
+  have hsc : u * |s + c| ≤ u * (|s| + |c|) := mul_le_mul_of_nonneg_left (abs_add_le s c) hu
+  have hsplit : fl (t2 + c2) - fl (s + c)
+      = (fl (t2 + c2) - (t2 + c2)) + ((t2 - c2) - (t1 - c1)) + ((t1 - c1) - (s - c))
+        + 2 * c2 + (-(2 * c)) + (-(fl (s + c) - (s + c))) := by ring
+  have h2c2 : |2 * c2| = 2 * |c2| := by rw [abs_mul]; simp
+  have h2c : |-(2 * c)| = 2 * |c| := by rw [abs_neg, abs_mul]; simp
+  have tri : |fl (t2 + c2) - fl (s + c)| ≤ |fl (t2 + c2) - (t2 + c2)| + |(t2 - c2) - (t1 - c1)|
+      + |(t1 - c1) - (s - c)| + 2 * |c2| + 2 * |c| + |fl (s + c) - (s + c)| := by
+    rw [hsplit]
+    have a1 := abs_add_le ((fl (t2 + c2) - (t2 + c2)) + ((t2 - c2) - (t1 - c1))
+      + ((t1 - c1) - (s - c)) + 2 * c2 + (-(2 * c))) (-(fl (s + c) - (s + c)))
+    have a2 := abs_add_le ((fl (t2 + c2) - (t2 + c2)) + ((t2 - c2) - (t1 - c1))
+      + ((t1 - c1) - (s - c)) + 2 * c2) (-(2 * c))
+    have a3 := abs_add_le ((fl (t2 + c2) - (t2 + c2)) + ((t2 - c2) - (t1 - c1))
+      + ((t1 - c1) - (s - c))) (2 * c2)
+    have a4 := abs_add_le ((fl (t2 + c2) - (t2 + c2)) + ((t2 - c2) - (t1 - c1)))
+      ((t1 - c1) - (s - c))
+    have a5 := abs_add_le (fl (t2 + c2) - (t2 + c2)) ((t2 - c2) - (t1 - c1))
+    rw [abs_neg] at a1
+    rw [h2c] at a2
+    rw [h2c2] at a3
+    linarith
+  linarith
+
+end neutral
+
 end KahanLemmas
 end StatsCI
